@@ -43,20 +43,26 @@ def validOk (p : Prefs) (valid : Bool) : Bool := !p.validOnly || (p.validOnly &&
 def propertyName (p : Prefs) (pr : Property) (actual : Cps) : Cps :=
   if p.defaultPropertyName && !p.keepAllProperties then pr.name else actual
 
+/-- the name parts as written (`:983-990`) -/
+def nameOut (p : Prefs) (pr : Property) : List Cps :=
+  pr.nameseq.map fun
+    | .comment t => doComment p t
+    | .str s => if pr.literalname == s then propertyName p pr s else s
+
+/-- the priority parts as written (`:1005-1015`) -/
+def prioOut (p : Prefs) (pr : Property) : List Cps :=
+  pr.prioseq.map fun
+    | .comment t => doComment p t
+    | .str s => if s == pr.literalpriority && p.defaultPropertyPriority then pr.priority else s
+
 def doProperty (p : Prefs) (lv : Nat) (pr : Property) : Cps :=
   if !pr.nameseq.isEmpty && pr.wf && validOk p pr.valid then
     let vtext := serObj p lv pr.value
-    let out0 : List Cps := pr.nameseq.map fun
-      | .comment t => doComment p t
-      | .str s => if pr.literalname == s then propertyName p pr s else s
+    let out0 : List Cps := nameOut p pr
     let out1 := if !out0.isEmpty && (!pr.mq || (pr.mq && !vtext.isEmpty))
       then out0 ++ [[58], p.propertyNameSpacer] else out0
     let out2 := out1 ++ [vtext]
-    let out3 := if !out2.isEmpty && !pr.prioseq.isEmpty then
-        out2 ++ [[32]] ++ pr.prioseq.map fun
-          | .comment t => doComment p t
-          | .str s => if s == pr.literalpriority && p.defaultPropertyPriority then pr.priority else s
-      else out2
+    let out3 := if !out2.isEmpty && !pr.prioseq.isEmpty then out2 ++ [[32]] ++ prioOut p pr else out2
     out3.flatten
   else []
 
@@ -150,35 +156,37 @@ def declSeq (p : Prefs) (items : List DItem) : List DItem :=
       | .prop _ => eff.contains it.2
       | _ => true).map (·.1)
 
-/-- the loop over `seq` (`:939-960`); `rest.isEmpty` is `i == len(seq) - 1` -/
+/-- the body of the loop over `seq` (`:939-960`) for one item; `omitThis` is `omitLastSemicolon and i == len(seq) - 1` -/
+def declHere (p : Prefs) (lv : Nat) (sep : Cps) (omitThis : Bool) : DItem → Except Err (List Cps)
+  | .comment t => pure (if p.keepComments then [doComment p t, sep] else [])
+  | .prop pr =>
+    let t := doProperty p lv pr
+    pure (if !t.isEmpty then (if omitThis then [t, sep] else [t, [59], sep]) else [])
+  | .urule r => match doURule p lv r with
+    | .error e => .error e
+    | .ok t => pure [t, sep]
+  | .other s => pure [s, sep]
+
+/-- the loop over `seq`; `rest.isEmpty` is `i == len(seq) - 1` -/
 def declOut (p : Prefs) (lv : Nat) (sep : Cps) (omitLast : Bool) : List DItem → Except Err (List Cps)
   | [] => pure []
   | it :: rest =>
-    let here : Except Err (List Cps) := match it with
-      | .comment t => pure (if p.keepComments then [doComment p t, sep] else [])
-      | .prop pr =>
-        let t := doProperty p lv pr
-        pure (if !t.isEmpty then (if omitLast && rest.isEmpty then [t, sep] else [t, [59], sep]) else [])
-      | .urule r => match doURule p lv r with
-        | .error e => .error e
-        | .ok t => pure [t, sep]
-      | .other s => pure [s, sep]
-    match here with
+    match declHere p lv sep (omitLast && rest.isEmpty) it with
     | .error e => .error e
     | .ok h => match declOut p lv sep omitLast rest with
       | .error e => .error e
       | .ok m => pure (h ++ m)
 
+/-- `if out and out[-1] == separator: del out[-1]`, then `''.join(out)` (`:962-965`) -/
+def declFinish (sep : Cps) : Except Err (List Cps) → Except Err Cps
+  | .error e => .error e
+  | .ok out => pure (if out.getLast? == some sep then out.dropLast else out).flatten
+
 /-- `do_css_CSSStyleDeclaration(style, separator=None, omit=True)` -/
 def doDecl (p : Prefs) (lv : Nat) (items : List DItem) (omitArg : Bool := true) : Except Err Cps :=
   if items.isEmpty then pure []
-  else
-    let sep := p.lineSeparator
-    match declOut p lv sep (omitArg && p.omitLastSemicolon) (declSeq p items) with
-    | .error e => .error e
-    | .ok out =>
-      let out1 := if out.getLast? == some sep then out.dropLast else out
-      pure out1.flatten
+  else declFinish p.lineSeparator
+    (declOut p lv p.lineSeparator (omitArg && p.omitLastSemicolon) (declSeq p items))
 
 /-! ## CSSVariablesDeclaration (`serialize.py:876-905`) -/
 
